@@ -49,6 +49,55 @@ def stable(ids):
     return [i for i in ids if not any(f in i for f in FLAKY)]
 
 
+def phase2_sandbox(meta, newdiff, checks, sid, demo, cand):
+    """run the checks of a private copy of /verif (SEED_SANDBOX=<dir>, with its own build) against a scratch worktree that
+    carries the change (VERIF_REPO): /repo and /verif themselves are not touched, so other runs can go on meanwhile"""
+    sb = os.environ['SEED_SANDBOX']
+    wt = f'/tmp/seedwt2_{sid}'
+    sh(f'git worktree remove --force {wt}', cwd=REPO)
+    shutil.rmtree(wt, ignore_errors=True)
+    rc, out = sh(f'git worktree add --detach {wt} HEAD', cwd=REPO)
+    if rc != 0:
+        print(out)
+        return 2
+    try:
+        tmp = f'/tmp/seedpatch_{sid}.diff'
+        open(tmp, 'w').write(newdiff)
+        rc, out = sh(f'git apply {tmp}', cwd=wt)
+        if rc != 0:
+            rc, out = sh(f'git apply --3way {tmp}', cwd=wt)
+            if rc != 0 or '<<<<<<<' in sh('git diff', cwd=wt)[1]:
+                print('cannot apply (conflicts with later fix commits): ' + out[-300:])
+                return 3
+            sh('git reset -q', cwd=wt)
+            _, newdiff = sh('git diff', cwd=wt)
+        env = {'PYTHONPATH': os.path.join(wt, 'src'), 'MPLBACKEND': 'Agg', 'PYTHONHASHSEED': '0'}
+        rcd, _ = sh(f'/venv/bin/python {demo}', cwd='/tmp', env=env, timeout=900)
+        meta['confirmed']['demo_exit_on_current_head_with_change'] = rcd
+        for c in checks:
+            rc, out = sh(f'./check {c} --tier quick', cwd=sb, timeout=3000, env={'VERIF_REPO': wt})
+            lines = [l for l in out.split('\n') if l.startswith(('VIOLATION', 'KNOWN-FINDING'))]
+            meta['checks_run'][c] = {'exit': rc, 'lines': [l.replace(sb, '/verif') for l in lines[:8]], 'summary': out.strip().split('\n')[-1][:300]}
+            print(c, 'exit', rc, *lines[:4], sep='\n   ')
+    finally:
+        sh(f'git worktree remove --force {wt}', cwd=REPO)
+        shutil.rmtree(wt, ignore_errors=True)
+    meta['detected_by'] = [c for c, r in meta['checks_run'].items() if r['exit'] == 1 and any(l.startswith('VIOLATION') for l in r['lines'])]
+    dst = os.path.join(VERIF, 'seeded', sid)
+    os.makedirs(dst, exist_ok=True)
+    open(os.path.join(dst, 'patch.diff'), 'w').write(newdiff)
+    shutil.copy(demo, os.path.join(dst, 'demo.py'))
+    notes = os.path.join(cand, 'notes.md')
+    if os.path.exists(notes):
+        meta['needs_to_manifest'] = open(notes).read()[:1500]
+    meta['what_was_run'] = ('scratch worktree: both test commands vs baseline failing sets, demo.py with/without patch; then the quick checks of an '
+                            'identical copy of /verif (own build) run against a scratch worktree carrying the change (VERIF_REPO), so that /repo '
+                            'itself stayed untouched')
+    json.dump(meta, open(os.path.join(dst, 'meta.json'), 'w'), indent=1)
+    print(json.dumps({k: meta[k] for k in ('confirmed', 'detected_by')}, indent=1)[:1500])
+    return 0
+
+
 def main():
     args = sys.argv[1:]
     cand, sid, prop = args[0], args[1], args[2]
@@ -59,7 +108,7 @@ def main():
             checks = args[k + 1].split(',')
     head = sh('git rev-parse --short HEAD', cwd=REPO)[1].strip()
     rc, st = sh('git status --porcelain', cwd=REPO)
-    if st.strip() and '--confirm-only' not in args:
+    if st.strip() and '--confirm-only' not in args and not os.environ.get('SEED_SANDBOX'):
         print('refusing: /repo is not clean:\n' + st)
         return 2
     patch = os.path.abspath(os.path.join(cand, 'patch.diff'))
@@ -124,6 +173,8 @@ def main():
 
 
 def phase2(meta, newdiff, checks, sid, demo, cand):
+    if os.environ.get('SEED_SANDBOX'):
+        return phase2_sandbox(meta, newdiff, checks, sid, demo, cand)
     # ---- the checks against the changed /repo
     tmp = f'/tmp/seedpatch_{sid}.diff'
     open(tmp, 'w').write(newdiff)
